@@ -322,7 +322,7 @@ def run_extraction(ex: Extraction, report):
             rec["rewrites"].append({"rule": "let-chain desugaring: `if let P = E && C {B}` -> `if let P = E { if C {B} }` (only without else)", "count": n})
         elif kind == "desugar_option_closures":
             n = _desugar_option_closures(t)
-            rec["rewrites"].append({"rule": "Option combinator desugaring: `E.is_some_and(|P| B)` -> `(match E { Some(P) => { B }, None => false })`, `E.is_none_or(|P| B)` -> `(match E { Some(P) => { B }, None => true })`, `E.map(|P| B).unwrap_or(D)` -> `(match E { Some(P) => { B }, None => D })`", "count": n})
+            rec["rewrites"].append({"rule": "Option combinator desugaring: `E.is_some_and(|P| B)` -> `(match E { Some(P) => { B }, None => false })`, `E.is_none_or(|P| B)` -> `(match E { Some(P) => { B }, None => true })`, `E.map(|P| B).unwrap_or(D)` -> `(match E { Some(P) => { B }, None => D })`, `E.and_then(|P| B)` -> `(match E { Some(P) => { B }, None => None })`, `C.then(|| X)` -> `(if C { Some(X) } else { None })`", "count": n})
         elif kind in ("sub", "subopt"):
             lhs, rhs = payload.split("=>", 1)
             _, p = parse_args(lhs.strip())
@@ -569,14 +569,24 @@ def _desugar_option_closures(t: SrcText):
     skip_from = 0
     while True:
         mk = mask(t.s)
-        m = re.compile(r"\.\s*(is_some_and|is_none_or|map)\s*\(").search(mk, skip_from)
+        m = re.compile(r"\.\s*(is_some_and|is_none_or|map|and_then|then)\s*\(").search(mk, skip_from)
         if not m:
             return n
         op = m.end() - 1
         cp = match_delim(mk, op)
         inner = t.s[op + 1:cp]
+        if m.group(1) == "then":
+            # `COND.then(|| X)` (bool::then) -> `(if COND { Some(X) } else { None })`
+            mt = re.match(r"\s*\|\s*\|\s*", inner)
+            if not mt:
+                skip_from = m.end()
+                continue
+            rs = _receiver_start(mk, m.start())
+            t.replace(rs, cp + 1, "(if %s { Some(%s) } else { None })" % (t.s[rs:m.start()], inner[mt.end():].rstrip().rstrip(",").rstrip()), t.o[m.start()])
+            n += 1
+            continue
         mi = re.match(r"\s*\|([^|:]*)\|\s*", inner)
-        if not mi and m.group(1) == "map":
+        if not mi and m.group(1) in ("map", "and_then"):
             skip_from = m.end()
             continue
         if not mi:
@@ -585,7 +595,7 @@ def _desugar_option_closures(t: SrcText):
         body = inner[mi.end():].rstrip().rstrip(",").rstrip()
         rs = _receiver_start(mk, m.start())
         recv = t.s[rs:m.start()]
-        dflt = "false" if m.group(1) == "is_some_and" else "true"
+        dflt = {"is_some_and": "false", "is_none_or": "true", "and_then": "None"}.get(m.group(1), "")
         end = cp + 1
         if m.group(1) == "map":
             mu = re.compile(r"\s*\.\s*unwrap_or\s*\(").match(mk, cp + 1)
